@@ -151,7 +151,7 @@ def handleK (op : String) (args res : List String) : Option Verdict :=
       if m.length != 10 then .bad "parse" else
       let run (p : Nat) := albList (albInit (⟨⟨a⟩, ⟨f⟩⟩ : Ell (FK p)) ⟨s1⟩ ⟨c1⟩ ⟨s2⟩ ⟨c2⟩ ⟨k1⟩)
       let ma := run 0; let mb := farL ma [run 1, run 2, run 3, run 4, run 5]
-      checks "AlbersEqualArea::Init" (zip4 albNames m ma mb fun nm => if nm == "_lat0" then 64 * epsF * 90 else if nm == "_txi0" || nm == "_sxi0" then 32 * epsF else 0)
+      checks "AlbersEqualArea::Init" (zip4 albNames m ma mb fun nm => if nm == "_lat0" then 64 * epsF * 90 else if nm == "_txi0" || nm == "_sxi0" || nm == "_n0" then 32 * epsF else 0)   -- sines / tangents of the origin: the Newton loop stops at an absolute tolerance
     | _, _ => .bad "parse"
   | "lccfwd" => some <|
     if res == ["!E"] then .skip "configuration rejected" else
